@@ -4,9 +4,15 @@
   additional direct oracles to the same logs, and every reported replay carries (seed, label, n_ops);
 * direct oracles evaluated on the abstracted object maps before/after every real command (`c02_oracles`, `c07_oracles`,
   `c08_oracles`) — each is the statement of a theorem of Properties/C02|C07|C08.lean read off the REAL backend;
-* `replay_history`: re-run one history and re-apply correspondence + oracles.
+* `replay_history`: re-run one history and re-apply correspondence + oracles;
+* overlapping commands call by call (`conc_case`, `check_conc`): k ≥ 2 REAL `Repository.snapshot` coroutines of several users
+  on one event loop and one backend, every backend call parked at a gate and released in a generated order, a reader issuing
+  list / list-files / restore commands in between; the per-call event trace is replayed by the Lean model (`repo.conc`,
+  ReplicatModel/RepoConc.lean) which must accept it; direct oracles for C02 (a snapshot listed at any point restores exactly
+  at every later point) and C07 (racy duplicate uploads: identical plaintext, one per absent observation, bounded by the pool).
 """
 from . import history as H
+from . import runner as R
 
 
 class OutProxy:
@@ -256,3 +262,641 @@ def hard_exit(rc):
     if any(t is not threading.main_thread() and t.is_alive() and not t.daemon for t in threading.enumerate()):
         os._exit(rc)
     return rc
+
+
+# ====================================================================== overlapping commands, call by call (C02 / C07)
+CONC_STYLES = ('random', 'random', 'exists-first', 'exists-first', 'uploads-first', 'one-command-first', 'reader-first', 'reader-late')
+
+
+class Gate:
+    """every backend call of every agent parks here until the scheduler coroutine releases it; the call is performed and logged
+    in the same event-loop step as its release, so `events` is the order in which the calls took effect"""
+
+    def __init__(self, rng, style):
+        self.rng, self.style = rng, style
+        self.parked = []          # [future, tag, op, name]
+        self.events = []          # (tag, op, name, result)
+        self.steps = 0
+        self.free = True
+        self.max_parked = 0
+        self.multi_choice = 0
+
+    async def park(self, tag, op, name):
+        if self.free:
+            return
+        import asyncio
+        fut = asyncio.get_running_loop().create_future()
+        self.parked.append((fut, tag, op, name))
+        await fut
+
+    def log(self, tag, op, name, result):
+        self.events.append((tag, op, name, result))
+
+    def pick(self):
+        P, r = self.parked, self.rng
+        pref = None
+        if self.style == 'exists-first':
+            pref = [i for i, p in enumerate(P) if p[2] == 'exists']
+        elif self.style == 'uploads-first':
+            pref = [i for i, p in enumerate(P) if p[2] == 'put']
+        elif self.style == 'one-command-first':
+            snaps = sorted({p[1][1] for p in P if p[1][0] == 'snap'})
+            pref = [i for i, p in enumerate(P) if snaps and p[1] == ('snap', snaps[0])]
+        elif self.style == 'reader-first':
+            pref = [i for i, p in enumerate(P) if p[1][0] == 'read']
+        elif self.style == 'reader-late':
+            pref = [i for i, p in enumerate(P) if p[1][0] != 'read']
+        if pref and r.random() < 0.85:
+            return r.choice(pref)
+        return r.randrange(len(P))
+
+    async def run(self, tasks):
+        import asyncio
+        while not all(t.done() for t in tasks):
+            for _ in range(6):
+                await asyncio.sleep(0)
+            if len(self.parked) < 2 and not all(t.done() for t in tasks):
+                await asyncio.sleep(0.002)
+            if not self.parked:
+                await asyncio.sleep(0.001)
+                continue
+            self.max_parked = max(self.max_parked, len(self.parked))
+            if len({(p[1], p[2]) for p in self.parked}) > 1:
+                self.multi_choice += 1
+            fut = self.parked.pop(self.pick())[0]
+            self.steps += 1
+            if not fut.done():
+                fut.set_result(None)
+
+
+class AgentBackend:
+    """one agent's (one command's) coroutine view of the shared in-memory store: every call parks at the gate, then is performed on
+    the shared `MemBackend` and logged with the agent's tag"""
+
+    def __init__(self, shared, gate, tag):
+        self.shared, self.gate, self.tag = shared, gate, tag
+
+    async def exists(self, name):
+        await self.gate.park(self.tag, 'exists', name)
+        r = R.MemBackend.exists(self.shared, name)
+        self.gate.log(self.tag, 'exists', name, r)
+        return r
+
+    async def upload(self, name, data):
+        await self.gate.park(self.tag, 'put', name)
+        R.MemBackend.upload(self.shared, name, data)
+        self.gate.log(self.tag, 'put', name, bytes(data))
+
+    async def upload_stream(self, name, stream, length, chunk_size=128_000):
+        await self.gate.park(self.tag, 'put', name)
+        R.MemBackend.upload_stream(self.shared, name, stream, length, chunk_size)
+        self.gate.log(self.tag, 'put', name, self.shared.objects[name])
+
+    async def download(self, name):
+        await self.gate.park(self.tag, 'get', name)
+        self.gate.log(self.tag, 'get', name, name in self.shared.objects)
+        return R.MemBackend.download(self.shared, name)
+
+    async def download_stream(self, name, stream, chunk_size=128_000):
+        await self.gate.park(self.tag, 'get', name)
+        self.gate.log(self.tag, 'get', name, name in self.shared.objects)
+        return R.MemBackend.download_stream(self.shared, name, stream, chunk_size)
+
+    async def list_files(self, prefix=''):
+        await self.gate.park(self.tag, 'list', prefix)
+        names = R.MemBackend.list_files(self.shared, prefix)
+        self.gate.log(self.tag, 'list', prefix, list(names))
+        for n in names:
+            yield n
+
+    async def delete(self, name):
+        raise RuntimeError('a non-destructive command called delete')
+
+    async def clean(self):
+        pass
+
+    async def close(self):
+        pass
+
+
+def abstract_objects(w, objects, others):
+    """`World.abstract_store` for a given object dict (a saved earlier state of the backend)"""
+    out = []
+    for loc, data in sorted(objects.items()):
+        n = w.abstract_name(loc)
+        if n is None:
+            k = others.setdefault(loc, len(others) + 1)
+            out.append([['other', k], ['blob', k]])
+        elif n[0] == 'config':
+            out.append([n, ['config']])
+        elif n[0] == 'chunk':
+            out.append([n, ['chunk', n[1], n[2]] if data in w.valid_payload.get(loc, ()) else ['blob', 0]])
+        else:
+            out.append([n, ['snap', n[1], n[2], w.snap_by_sid[n[2]]['body']] if data in w.valid_payload.get(loc, ()) else ['blob', 0]])
+    return out
+
+
+def register_snapshot(w, ui, repo, res, fileset, srcdir, ts):
+    """what `World.snapshot` records about a finished snapshot (content ids, names, model op, ground truth) — for a snapshot that
+    was run by the caller (concurrently with others)"""
+    import os
+    u = w.users[ui]
+    rec = repo.props.chunker
+    stream = [w.cid(c) for c in rec.chunks]
+    rec.chunks = []
+    digests = list(res.chunks)
+    hd = repo.props.hash_digest
+    dig2cid = {}
+    for c_bytes, c_id in list(w.contents.items()):
+        d = hd(c_bytes)
+        dig2cid[d] = c_id
+        w.chunk_names.setdefault(repo._chunk_digest_to_location(d), (u.fam, c_id))
+    sid = w.next_sid
+    w.next_sid += 1
+    w.snap_names[res.location] = (u.fam, sid)
+    w.valid_payload.setdefault(res.location, set()).add(w.backend.objects[res.location])
+    files, truth = [], {}
+    for f in res.data['files']:
+        data = fileset[os.path.relpath(f['path'], srcdir)]
+        truth[f['path']] = data
+        needs = []
+        for c in sorted(f['chunks'], key=lambda x: x['counter']):
+            cid = dig2cid[digests[c['index']]]
+            if cid not in needs and c['range'][1] > c['range'][0]:
+                needs.append(cid)
+        files.append([w.pid(f['path']), w.ver(data), needs])
+    body = {'owner': u.keyid, 'ts': ts, 'chunks': [dig2cid[d] for d in digests], 'files': files}
+    w.snap_by_sid[sid] = {'name': res.name, 'location': res.location, 'fam': u.fam, 'owner': u.keyid, 'ts': ts, 'truth': truth, 'body': body,
+                          'ts_string': res.data['utc_timestamp'], 'note': None}
+    return {'sid': sid, 'stream': stream, 'files': files, 'ts': ts}
+
+
+def gen_conc_filesets(r, k, mx):
+    """k file sets built from shared blocks: identical files, shared prefixes, a block repeated inside one file, zero runs —
+    so that the commands' chunk streams share chunks with each other and repeat chunks inside themselves"""
+    blocks = [r.randbytes(3 * mx + 7), r.randbytes(2 * mx + 1), r.randbytes(mx + 3), r.randbytes(4 * mx)]
+    sets = []
+    for _ in range(k):
+        fs = {}
+        for nm in r.sample(['a', 'b', 'c/d', 'e', 'f'], r.choice([1, 2, 3, 4])):
+            kind = r.random()
+            if kind < 0.25:
+                fs[nm] = bytes(mx * r.choice([2, 3, 5]))
+            elif kind < 0.45:
+                fs[nm] = r.choice(blocks[:3]) * r.choice([2, 3, 4])
+            else:
+                fs[nm] = b''.join(r.choice(blocks) for _ in range(r.choice([1, 2, 3]))) + r.randbytes(r.choice([0, 0, 5]))
+        sets.append(fs)
+    if k >= 2 and r.random() < 0.5:
+        sets[1] = dict(sets[0])          # the very same data snapshotted twice at once
+    return sets
+
+
+def conc_case(arg):
+    """→ result dict (picklable): summary, the model request `repo.conc`, what the implementation did, oracle findings"""
+    import asyncio
+    import os
+    import shutil
+    from pathlib import Path
+    from .. import common
+    from ..common import rng_for
+    from . import runner as R_
+    from .world import World, FakeDatetime, err_kind
+    seed, idx, label = arg
+    common.use_rebuilt_chunker()
+    r = rng_for(seed, label, idx)
+    res = {'idx': idx, 'label': label, 'violations': [], 'notes': []}
+    enc = r.random() < 0.8
+    chunking = r.choice([(8, 32), (16, 64), (8, 32), (13, 50)])
+    k = r.choice([2, 2, 3, 3, 4])
+    style = r.choice(CONC_STYLES)
+    if label.startswith('C07'):
+        style = r.choice(('exists-first', 'exists-first', 'exists-first', 'random', 'one-command-first'))
+    with R_.Scratch(f'conc_{label}_{idx}') as sc:
+        w = World(sc, enc=enc, chunking=chunking, concurrent=2, async_backend=True)
+        for kind in r.choice([['clone'], ['shared'], ['independent'], ['shared', 'independent'], ['shared', 'clone', 'independent']]):
+            w.add_user(kind if enc else 'clone', base=0)
+        sets = gen_conc_filesets(r, k, chunking[1])
+        # ---- a sequential prefix: the repository does not start empty (some chunks of the overlapping commands are already stored)
+        prefix = []
+        for _ in range(r.choice([0, 1, 1, 2])):
+            ui = r.randrange(len(w.users))
+            prefix.append(w.snapshot(ui, r.choice(sets))['sid'])
+        objects0 = dict(w.backend.objects)
+        # ---- the overlapping commands
+        gate = Gate(rng_for(seed, label, idx, 'gate'), style)
+        cmds = []
+        for i in range(k):
+            ui = r.randrange(len(w.users))
+            workers = r.choice([1, 2, 2, 3, 5])
+            src = sc.dir(f'src{i}')
+            R_.write_tree(src, {nm: (v, 10 ** 18 + len(v)) for nm, v in sets[i].items()})
+            repo = w.repo(ui, concurrent=workers)
+            repo.backend = AgentBackend(w.backend, gate, ('snap', i))
+            cmds.append({'ui': ui, 'workers': workers, 'src': src, 'repo': repo, 'fileset': sets[i]})
+        readers = {}
+        for ui in range(len(w.users)):
+            rp = w.repo(ui, concurrent=r.choice([1, 2, 3]))
+            rp.backend = AgentBackend(w.backend, gate, ('read', -1))
+            readers[ui] = rp
+        n_reads = r.choice([2, 3, 4, 6])
+        read_at = sorted(r.randrange(0, 12 * k) for _ in range(n_reads))
+        rr = rng_for(seed, label, idx, 'reader')
+        reads = []            # dict(no, kind, ui, sre name|None, fre, error, out)
+        stamps = {}
+
+        class Ticking(FakeDatetime):
+            @classmethod
+            def utcnow(cls):
+                t = w.tick()
+                stamps[str(FakeDatetime._now)] = t
+                return FakeDatetime._now
+        w.rr.datetime = Ticking
+        out_buf = __import__('io').StringIO()
+        results = [None] * k
+
+        def snap_loc_owner():
+            """snapshot name -> command index, read off the gate's log (a snapshot object is listed as soon as it is stored)"""
+            m = {}
+            for tag, op, name, _ in gate.events:
+                if op == 'put' and name.startswith('snapshots/') and tag[0] == 'snap':
+                    m[cmds[0]['repo'].parse_snapshot_location(name).name] = tag[1]
+            return m
+
+        async def one_read(no, kind, ui, name, fre):
+            rp = readers[ui]
+            rp.backend.tag = ('read', no)
+            rec = {'no': no, 'kind': kind, 'ui': ui, 'name': name, 'fre': fre, 'error': None, 'out': None}
+            sre = None if name is None else '^' + name + '$'
+            try:
+                if kind == 'list':
+                    p0 = out_buf.tell()
+                    await rp.list_snapshots(snapshot_regex=sre, header=False)
+                    rec['out'] = [[c.strip() for c in ln.split('\t')] for ln in out_buf.getvalue()[p0:].splitlines() if ln.strip()]
+                elif kind == 'listfiles':
+                    from replicat.utils import FileListColumn as F
+                    p0 = out_buf.tell()
+                    await rp.list_files(snapshot_regex=sre, file_regex=fre, header=False, columns=[F.SNAPSHOT_NAME, F.PATH])
+                    rec['out'] = [[c.strip() for c in ln.split('\t')] for ln in out_buf.getvalue()[p0:].splitlines() if ln.strip()]
+                else:
+                    tgt = sc.dir()
+                    await rp.restore(snapshot_regex=sre, file_regex=fre, path=Path(tgt))
+                    got = R_.read_tree(tgt)
+                    rec['out'] = {'/' + os.fsdecode(p): v[0] for p, v in got.items()}
+                    shutil.rmtree(tgt, ignore_errors=True)
+            except Exception as e:  # noqa: BLE001
+                rec['error'] = err_kind(e)
+            reads.append(rec)
+            return rec
+
+        listed = {}           # snapshot name -> read number at which a list command showed it (or -1: stored before the execution)
+        for s in prefix:
+            listed[w.snap_by_sid[s]['name']] = -1
+
+        def owner_ui(name):
+            for d in w.snap_by_sid.values():
+                if d['name'] == name:
+                    return next(i for i, uu in enumerate(w.users) if uu.keyid == d['owner'] and uu.fam == d['fam'])
+            ci = snap_loc_owner().get(name)
+            return None if ci is None else cmds[ci]['ui']
+
+        async def reader(snap_tasks):
+            no = 0
+            for at in read_at:
+                while gate.steps < at and not all(t.done() for t in snap_tasks):
+                    await asyncio.sleep(0.001)
+                kind = rr.choice(['list', 'list', 'listfiles', 'restore', 'restore-one', 'restore-one'])
+                ui = rr.randrange(len(w.users))
+                if kind == 'restore-one':
+                    if not listed:
+                        kind = 'list'
+                    else:
+                        name = rr.choice(sorted(listed))
+                        o = owner_ui(name)
+                        await one_read(no, 'restore', o if (o is not None and rr.random() < 0.8) else ui, name, None)
+                        no += 1
+                        continue
+                fre = rr.choice([None, None, '/a$', 'c/'])
+                rec = await one_read(no, kind, ui, None, fre if kind != 'list' else None)
+                no += 1
+                if kind == 'list' and rec['out'] is not None:
+                    for row in rec['out']:
+                        listed.setdefault(row[0], rec['no'])
+            while not all(t.done() for t in snap_tasks):
+                await asyncio.sleep(0.001)
+            # ---- the end of the execution is a later point too: list, then restore everything that was ever listed
+            rec = await one_read(no, 'list', 0, None, None)
+            no += 1
+            for ui in range(1, len(w.users)):
+                r2 = await one_read(no, 'list', ui, None, None)
+                no += 1
+                for row in (r2['out'] or []):
+                    listed.setdefault(row[0], r2['no'])
+            for row in (rec['out'] or []):
+                listed.setdefault(row[0], rec['no'])
+            for name in sorted(listed):
+                o = owner_ui(name)
+                if o is not None:
+                    await one_read(no, 'restore', o, name, None)
+                    no += 1
+
+        async def snap(i):
+            try:
+                results[i] = await cmds[i]['repo'].snapshot(paths=[Path(cmds[i]['src'])])
+            except Exception as e:  # noqa: BLE001
+                results[i] = e
+
+        async def main():
+            gate.free = False
+            snap_tasks = [asyncio.ensure_future(snap(i)) for i in range(k)]
+            rd = asyncio.ensure_future(reader(snap_tasks))
+            sched = asyncio.ensure_future(gate.run(snap_tasks + [rd]))
+            try:
+                await asyncio.wait_for(asyncio.gather(*snap_tasks, rd), 300)
+            finally:
+                gate.free = True
+                for p in gate.parked:
+                    if not p[0].done():
+                        p[0].set_result(None)
+                sched.cancel()
+        import sys
+        so, se = sys.stdout, sys.stderr
+        sys.stdout, sys.stderr = out_buf, __import__('io').StringIO()
+        crashed = None
+        try:
+            asyncio.run(main())
+        except Exception as e:  # noqa: BLE001
+            crashed = f'{type(e).__name__}: {e}'
+        finally:
+            sys.stdout, sys.stderr = so, se
+            w.rr.datetime = FakeDatetime
+        if crashed is not None:
+            res['violations'].append(('conc:overlapping-commands-hung-or-crashed', f'{k} overlapping snapshots + reader: {crashed}', {}))
+        for i, x in enumerate(results):
+            if isinstance(x, Exception) or x is None:
+                res['violations'].append(('conc:overlapping-snapshot-failed', f'snapshot #{i} of {k} overlapping ones raised {type(x).__name__}: {x}', {}))
+        ok = crashed is None and all(x is not None and not isinstance(x, Exception) for x in results)
+        res['summary'] = {'enc': enc, 'users': [uu.kind for uu in w.users], 'chunking': list(chunking), 'commands': k, 'style': style,
+                          'workers': [c['workers'] for c in cmds], 'prefix_snapshots': len(prefix), 'reads': len(reads), 'calls': len(gate.events)}
+        res['ok'] = ok
+        if not ok:
+            res['nontrivial'] = {'c02': False, 'c07': False}
+            return res
+        # ---- registration (content ids, names) in commit order
+        order = [t[1] for t, op, name, _ in gate.events if op == 'put' and name.startswith('snapshots/') and t[0] == 'snap']
+        mcmds = [None] * k
+        for i in order:
+            c = cmds[i]
+            reg = register_snapshot(w, c['ui'], c['repo'], results[i], c['fileset'], c['src'], stamps[results[i].data['utc_timestamp']])
+            c['sid'] = reg['sid']
+            mcmds[i] = {'user': w.model_user(c['ui']), 'stream': reg['stream'], 'files': reg['files'], 'ts': reg['ts'], 'sid': reg['sid'], 'workers': c['workers']}
+        # every chunk upload: the payload decrypts (with the uploader's keys) to the plaintext the location stands for
+        plain_of = {cid: b for b, cid in w.contents.items()}
+        trace, raw = [], []
+        uploads_at = {}
+        name2sid = {d['name']: s for s, d in w.snap_by_sid.items()}
+        read_reqs = {}
+        for tag, op, name, result in gate.events:
+            if tag[0] == 'snap':
+                i = tag[1]
+                repo = cmds[i]['repo']
+                if op == 'exists':
+                    n = w.abstract_name(name)
+                    trace.append(['exists', i, n[2] if n and n[0] == 'chunk' and n[1] == w.users[cmds[i]['ui']].fam else 0, bool(result)])
+                    raw.append(('exists', i, name, bool(result)))
+                elif op == 'put' and name in w.chunk_names:
+                    fam, cid = w.chunk_names[name]
+                    w.valid_payload.setdefault(name, set()).add(result)
+                    try:
+                        plain = result if not enc else repo.props.decrypt(result, repo.props.derive_shared_subkey(repo.props.hash_digest(plain_of[cid])))
+                    except Exception:  # noqa: BLE001
+                        plain = None
+                    got = w.contents.get(bytes(plain)) if plain is not None else None
+                    trace.append(['upload', i, ['chunk', fam, cid], ['chunk', fam, got] if got is not None else ['blob', 0]])
+                    uploads_at.setdefault(name, []).append((i, plain))
+                    raw.append(('put', i, name, None))
+                elif op == 'put' and name == results[i].location:
+                    trace.append(['commit', i])
+                    raw.append(('commit', i, name, None))
+                else:
+                    trace.append(['commit', 10 ** 6])          # a call the model has no event for: forces a rejection
+                    raw.append((op, i, name, None))
+            elif op == 'list' and name.startswith('snapshots/'):
+                rd = next((x for x in reads if x['no'] == tag[1]), None)
+                if rd is None:
+                    continue
+                q = {'kind': rd['kind'], 'user': w.model_user(rd['ui'])}
+                if rd['name'] is not None:
+                    q['sre'] = [name2sid[rd['name']]] if rd['name'] in name2sid else []
+                if rd['fre'] is not None:
+                    q['fre'] = w.pids_matching(rd['fre'])
+                read_reqs[rd['no']] = len([e for e in trace if e[0] == 'read'])
+                trace.append(['read', q])
+                raw.append(('read', rd['no'], None, None))
+        others = {}
+        store0 = abstract_objects(w, objects0, others)
+        final = abstract_objects(w, w.backend.objects, others)
+        perm = list(range(k))
+        r.shuffle(perm)
+        res['req'] = {'op': 'repo.conc', 'enc': enc, 'store': store0, 'cmds': mcmds, 'trace': trace, 'orders': [list(range(k)), list(range(k))[::-1], perm]}
+        res['final'] = final
+        # ---- what the reads returned, in model terms
+        obs = {}
+        for rd in reads:
+            if rd['no'] not in read_reqs:
+                continue
+            if rd['error'] is not None:
+                o = {'error': rd['error']}
+            elif rd['kind'] == 'list':
+                o = {'error': None, 'rows': sorted([name2sid.get(row[0], -1), None if row[2] == '--' else int(row[3])] for row in rd['out'])}
+            elif rd['kind'] == 'listfiles':
+                rows = []
+                for row in rd['out']:
+                    d = w.snap_by_sid.get(name2sid.get(row[0], -1))
+                    rows.append([d['ts'] if d else -1, w.pid(row[1]), w.ver(d['truth'].get(row[1], b'?')) if d else -1])
+                o = {'error': None, 'rows': sorted(rows)}
+            else:
+                o = {'error': None, 'files': sorted([w.pid(p), w.ver(b)] for p, b in rd['out'].items())}
+            obs[read_reqs[rd['no']]] = dict(o, kind=rd['kind'])
+        res['reads'] = obs
+        # ---- the implementation's own counters
+        cnt = {}
+        for kind, i, name, result in raw:
+            if kind == 'exists' and not result and name in w.chunk_names:
+                cnt.setdefault((i, w.chunk_names[name][1]), [0, 0])[1] += 1
+            elif kind == 'put':
+                cnt.setdefault((i, w.chunk_names[name][1]), [0, 0])[0] += 1
+        res['counts'] = sorted([i, c, v[0], v[1]] for (i, c), v in cnt.items())
+        # ================================================================== direct oracles on the real execution
+        V = res['violations']
+        # C02: a snapshot listed at any point (or stored before) restores exactly, with its owner's key, at every later point
+        for rd in reads:
+            if rd['kind'] == 'restore' and rd['name'] is not None and rd['name'] in name2sid:
+                d = w.snap_by_sid[name2sid[rd['name']]]
+                u = w.users[rd['ui']]
+                if u.fam == d['fam'] and u.keyid == d['owner'] and listed.get(rd['name'], 10 ** 9) < rd['no']:
+                    if rd['error'] is not None or rd['out'] != d['truth']:
+                        V.append(('conc:listed-snapshot-not-restored-exactly',
+                                  f'snapshot listed at read #{listed[rd["name"]]} restored by its owner at the later read #{rd["no"]} while {k} snapshots were running: '
+                                  f'{rd["error"] or "content differs"}', {}))
+        # C02: at the moment a snapshot object is stored, every chunk it references is stored (Consistent in every reached state)
+        have = set(objects0)
+        for kind, i, name, _ in raw:
+            if kind == 'put':
+                have.add(name)
+            elif kind == 'commit':
+                miss = [dg for dg in results[i].chunks if cmds[i]['repo']._chunk_digest_to_location(dg) not in have]
+                if miss:
+                    V.append(('conc:referenced-chunk-missing', f'the snapshot object of overlapping command #{i} was stored before {len(miss)} of its chunks', {}))
+                have.add(name)
+        # C07: racy duplicate uploads
+        present0 = {n for n in objects0 if n in w.chunk_names}
+        for name, ups in uploads_at.items():
+            if len({p for _, p in ups}) > 1 or any(p is None or w.contents.get(bytes(p)) != w.chunk_names[name][1] for _, p in ups):
+                V.append(('dedup:duplicate-upload-differs', f'{len(ups)} uploads of one chunk location by commands {[i for i, _ in ups]} do not carry the same plaintext', {}))
+            if name in present0:
+                V.append(('dedup:present-chunk-uploaded-again', f'a chunk stored before the overlapping commands began was uploaded again by command(s) {[i for i, _ in ups]}', {}))
+        seen_abs = {}
+        for kind, i, name, result in raw:
+            if kind == 'exists' and not result:
+                seen_abs[(i, name)] = seen_abs.get((i, name), 0) + 1
+            elif kind == 'put':
+                if seen_abs.get((i, name), 0) < 1:
+                    V.append(('dedup:upload-without-absent-observation', f'command #{i} uploaded a chunk it had not just seen absent', {}))
+                else:
+                    seen_abs[(i, name)] -= 1
+        for (i, c), (up, ab) in cnt.items():
+            if up > cmds[i]['workers']:
+                V.append(('dedup:more-uploads-than-workers', f'command #{i} ({cmds[i]["workers"]} workers) uploaded chunk {c} {up} times', {}))
+            if up > mcmds[i]['stream'].count(c):
+                V.append(('dedup:more-uploads-than-occurrences', f'command #{i} uploaded chunk {c} {up} times, it occurs {mcmds[i]["stream"].count(c)} times in its data', {}))
+        for i in range(k):
+            fam = w.users[cmds[i]['ui']].fam
+            for c in set(mcmds[i]['stream']):
+                loc = next(l for l, v in w.chunk_names.items() if v == (fam, c))
+                if loc not in present0 and loc not in uploads_at:
+                    V.append(('dedup:new-chunk-never-uploaded', f'chunk {c} of command #{i} was not stored before and nobody uploaded it', {}))
+        fams = {e[0][1] for e in final if e[0][0] in ('chunk', 'snap')}
+        for f in fams:
+            if {c for (ff, c) in _chunks(store0) if ff == f} != {c for (ff, c) in _refs(store0, f)}:
+                continue
+            objs = {c for (ff, c) in _chunks(final) if ff == f}
+            refs = {c for (ff, c) in _refs(final, f)}
+            if objs != refs:
+                V.append(('dedup:objects-differ-from-referenced',
+                          f'after {k} overlapping snapshots family {f}: stored-but-unreferenced {sorted(objs - refs)[:3]}, referenced-but-missing {sorted(refs - objs)[:3]}', {}))
+        # ---- non-triviality
+        agents = [t[1] for t in raw if t[0] in ('exists', 'put', 'commit')]
+        switches = sum(1 for a, b in zip(agents, agents[1:]) if a != b)
+        mid_reads = sum(1 for j, t in enumerate(raw) if t[0] == 'read' and any(x[0] in ('exists', 'put', 'commit') for x in raw[j + 1:]))
+        dups = sum(1 for ups in uploads_at.values() if len(ups) > 1)
+        res['summary'].update(interleaving_switches=switches, reads_during=mid_reads, duplicate_uploads=dups, max_parked=gate.max_parked,
+                              scheduler_choices=gate.multi_choice, uploads=sum(len(u) for u in uploads_at.values()))
+        res['nontrivial'] = {'c02': switches >= k and mid_reads >= 1, 'c07': dups >= 1}
+    return res
+
+
+def check_conc(res, drv, out, want_reads=True):
+    """the model must ACCEPT the observed per-call trace, end in the implementation's object map, answer every read like the
+    implementation, count uploads / absent observations alike; its sequential runs (any order) must give the same map.  → #problems"""
+    if not res.get('ok') or drv is None:
+        return 0
+    rp = {'kind': 'conc', 'idx': res['idx'], 'label': res['label']}
+    m = drv.ask(res['req'])
+    probs = []
+    if 'accepts' not in m:
+        probs.append('driver error: ' + str(m.get('error')))
+    elif not m['accepts']:
+        k = m.get('rejected_at')
+        ev = res['req']['trace'][k] if isinstance(k, int) and k < len(res['req']['trace']) else None
+        probs.append(f'the observed call trace is not an execution of the concurrent model: call #{k} {ev} is rejected (after {res["req"]["trace"][max(0, (k or 0) - 3):k]})')
+    else:
+        fin = H.canon_store(res['final'])
+        if not m['complete']:
+            probs.append('all commands returned but the model execution is not complete')
+        if H.canon_store(m['store']) != fin:
+            a, b = set(H.canon_store(m['store'])), set(fin)
+            probs.append(f'final object map differs: only in model {sorted(a - b)[:2]}, only in implementation {sorted(b - a)[:2]}')
+        for o, sq in zip(res['req']['orders'], m['sequential']):
+            if H.canon_store(sq) != fin:
+                probs.append(f'the sequential model run in order {o} does not end in the object map of the concurrent execution')
+        if not m.get('sequential_schedule_accepted') and all(c['workers'] >= 1 for c in res['req']['cmds']):
+            probs.append('the sequential schedule of the same commands is not accepted by the concurrent model or does not end in the store of the sequential model')
+        mc = sorted(x for x in m['counts'] if x[2] or x[3])
+        if mc != sorted(res['counts']):
+            probs.append(f'upload / absent-observation counters differ: model {mc[:4]} implementation {res["counts"][:4]}')
+        if want_reads:
+            for j, rep in enumerate(m['replies']):
+                im = res['reads'].get(j)
+                if im is None:
+                    continue
+                ie = im['error']
+                if ie == 'other:KeyError':
+                    ie = 'missing'
+                me = rep.get('error')
+                if (me or None) != ie:
+                    probs.append(f'read #{j} ({im["kind"]}): error model {me} implementation {im["error"]}')
+                elif me is None:
+                    if im['kind'] == 'list':
+                        mine = sorted([row[0], row[2]] for row in rep['rows'])
+                        if mine != im['rows']:
+                            probs.append(f'read #{j} (list): model rows {mine[:4]} implementation {im["rows"][:4]}')
+                    elif im['kind'] == 'listfiles':
+                        if sorted(rep['rows']) != im['rows']:
+                            probs.append(f'read #{j} (list-files): model rows {sorted(rep["rows"])[:4]} implementation {im["rows"][:4]}')
+                    else:
+                        mine = sorted([f[0], f[1]] for f in rep['files'])
+                        if mine != im['files']:
+                            probs.append(f'read #{j} (restore): model files {mine[:4]} implementation {im["files"][:4]}')
+    if probs:
+        out.disagreement(f'overlapping commands ({res["summary"]["commands"]} snapshots, style {res["summary"]["style"]}): ' + '; '.join(probs[:3]), rp)
+        return len(probs)
+    out.traces_validated += 1
+    return 0
+
+
+def run_conc(out, drv, label, n, prop):
+    """`n` overlapping-command cases in worker processes; `prop` ('c02' | 'c07') selects the oracles reported and the non-triviality rule"""
+    import multiprocessing as mp
+    import os
+    import shutil
+    from ..common import WORK
+    sigs = {'c02': ('conc:',), 'c07': ('dedup:', 'conc:overlapping')}[prop]
+    with mp.get_context('fork').Pool(min(16, os.cpu_count() or 4)) as pool:
+        got = pool.map(_conc_with_pid, [(out.seed, i, label) for i in range(n)], chunksize=1)
+    for pid in {p for p, _ in got}:
+        shutil.rmtree(WORK / str(pid), ignore_errors=True)
+    for _, res in got:
+        out.case(res['summary'], res['nontrivial'][prop])
+        out.count('conc-case')
+        out.count('conc:commands=%d' % res['summary']['commands'])
+        out.count('conc:style=' + res['summary']['style'])
+        if res.get('ok'):
+            out.count('conc:duplicate-uploads', res['summary']['duplicate_uploads'])
+            out.count('conc:reads-while-snapshots-run', res['summary']['reads_during'])
+            out.count('conc:backend-calls', res['summary']['calls'])
+        for sig, what, rp in res['violations']:
+            if sig.startswith(sigs):
+                out.violation(sig, what, dict(rp, kind='conc', seed=out.seed, idx=res['idx'], label=label))
+        check_conc(res, drv, out)
+    return [r for _, r in got]
+
+
+def _conc_with_pid(arg):
+    import os
+    return os.getpid(), conc_case(arg)
+
+
+def replay_conc(rp, drv, prop):
+    from .. import common
+    res = conc_case((rp.get('seed', common.seed_from_env()), rp['idx'], rp['label']))
+    print('summary', res['summary'])
+    c = _Collect()
+    bad = check_conc(res, drv, c)
+    sigs = {'c02': ('conc:',), 'c07': ('dedup:', 'conc:overlapping')}[prop]
+    v = [x for x in res['violations'] if x[0].startswith(sigs)]
+    for x in v:
+        print('violation', x[0], x[1])
+    for dd in c.d:
+        print('disagreement', dd)
+    return 1 if (v or bad) else 0
